@@ -349,7 +349,7 @@ fn run_qnt(input: &Value) -> (Case, bool) {
     d.sort();
     d.dedup();
     let npix = rows.iter().map(|r| r.len()).sum::<usize>();
-    let sampled = k > 0 && npix / (k * 100) >= 2;
+    let sampled = k > 0 && k.checked_mul(100).map(|d| npix / d >= 2).unwrap_or(false);
     (
         Case {
             coq: format!(
@@ -362,13 +362,13 @@ fn run_qnt(input: &Value) -> (Case, bool) {
             json: j,
             tags: vec![
                 "kind=qnt".to_string(),
-                format!("k={}", k),
+                format!("k={}", if k > 100000 { "huge".to_string() } else { k.to_string() }),
                 format!("dither={}", dither),
                 format!("distinct={}", bucket(d.len())),
                 format!("fits={}", d.len() <= k),
                 format!("alpha={}", alpha),
                 format!("crop={}", crop.is_some()),
-                format!("small_view_of_large_parent={}", crop.is_some() && k > 0 && (w * h) / (k * 100) >= 2 && !sampled),
+                format!("small_view_of_large_parent={}", crop.is_some() && k > 0 && k.checked_mul(100).map(|d| (w * h) / d >= 2).unwrap_or(false) && !sampled),
                 format!("sampled={}", sampled),
             ],
             nontrivial: d.len() >= 2,
@@ -681,6 +681,26 @@ fn gen_qnt_small_crop(rng: &mut Rng) -> Value {
            "dither": rng.chance(1, 2), "bg": Value::Null})
 }
 
+/// requested sizes around usize::MAX / 100 and powers of two up to 2^63 (`palette_size * 100`)
+const HUGE_KS: [u64; 10] = [
+    184467440737095516,      // floor(2^64 / 100): the product still fits
+    184467440737095517,      // the first size whose product does not fit
+    184467440737095515,
+    1 << 62,
+    1 << 63,
+    u64::MAX,
+    u64::MAX / 2,
+    (1 << 57) + 1,           // product < 2^64
+    368934881474191033,      // 2 * floor(2^64/100) + 1: wraps to a small divisor (100)
+    553402322211286549,      // wraps to 84
+];
+
+fn gen_qnt_huge_k(rng: &mut Rng) -> Value {
+    let mut v = if rng.chance(1, 2) { gen_qnt_boundary(rng) } else { gen_qnt(rng, false) };
+    v["k"] = json!(*rng.pick(&HUGE_KS));
+    v
+}
+
 pub fn generate(rng: &mut Rng, n: usize, tier: &str) -> Vec<Value> {
     let thorough = tier == "thorough";
     let mut v = vec![];
@@ -688,7 +708,14 @@ pub fn generate(rng: &mut Rng, n: usize, tier: &str) -> Vec<Value> {
         let x = match i % 10 {
             0 | 1 | 2 => gen_kd(rng, thorough),
             3 | 4 | 5 => gen_oct(rng),
-            6 | 7 => gen_qnt(rng, false),
+            6 => gen_qnt(rng, false),
+            7 => {
+                if i % 30 == 7 {
+                    gen_qnt_huge_k(rng)
+                } else {
+                    gen_qnt(rng, false)
+                }
+            }
             8 => {
                 if i % 20 == 8 {
                     gen_qnt_small_crop(rng)
